@@ -20,7 +20,11 @@ import Blots.Lemmas.EvalWeakClosed
       (`weakening_partial`), and for ARBITRARY expressions (function application included:
       call expressions, `via` / `into` / `where`, the higher-order built-ins) evaluated in an
       environment of hereditarily closed values (`weakening_closed`); full statement kept as
-      `weakening_statement`.
+      `weakening_statement`;
+  (5) evaluating twice: an evaluation that allocates no function cell and makes no frame-level
+      assignment returns the state exactly as it was, so a second evaluation is the same
+      evaluation (`eval_twice`); the two conditions are needed (examples);
+  (6) let-abstraction of the subexpression that is evaluated first (`let_abstraction_leftmost`).
 -/
 namespace Blots.C02
 
@@ -150,7 +154,8 @@ theorem builtins_are_pure_or_hof :
 
 /-! #### (4) weakening -/
 
-/-- FULL STATEMENT (not proved): `t` is not `inputs`, is not mentioned by `e` (`mentions`: as
+/-- FULL STATEMENT (not proved in this generality; `weakening_closed` proves it for environments
+    of hereditarily closed values): `t` is not `inputs`, is not mentioned by `e` (`mentions`: as
     identifier, assignment target, parameter, shorthand key; `#field` mentions `inputs`), by
     any function value stored in the environment (`valueMentions`), nor is it a display name;
     then evaluating `e` in the state with the extra binding `(t, w)` at the head of the frame
@@ -165,10 +170,11 @@ def weakening_statement : Prop :=
 /-- PROVED PART: the statement for every expression WITHOUT function application (`callFree`:
     no call expression, no `via` / `into` / `where`; everything else, including function
     creation, do-blocks, assignments, records, conditionals) — then no condition on the values
-    in the environment or the display names is needed.  MISSING: expressions that apply
-    functions.  That needs the invariant "no function value reachable from the state mentions
-    `t`" carried through the whole call group, in particular its preservation by each of the
-    ~80 pure built-ins (`callPure`), which was out of reach in the time available. -/
+    in the environment or the display names is needed.  Expressions that apply functions:
+    see `weakening_closed` (closed environments).  For `weakening_statement` as written one
+    would need the invariant "no function value reachable from the state mentions `t`" carried
+    through the whole call group, in particular its preservation by each of the ~80 pure
+    built-ins (`callPure`). -/
 theorem weakening_partial (ops : NumOps) (fuel depth : Nat) (e : Expr) (k : Nat) (s : ES) (t : String)
     (w : Value) (ht : t ≠ "inputs") (hk : k < s.env.length) (hm : mentions t e = false)
     (hc : callFree e = true) :
@@ -220,9 +226,12 @@ theorem weakening_partial_lists (ops : NumOps) (fuel depth : Nat) (k : Nat) (s :
     own display name, or `inputs`), has no nested `output`, and captured only such values.  The
     value of `inputs` is one of the bound values.
 
-    Then for every expression `e` (no nested `output`) that does not mention `t` and whose free
-    names are bound (or `inputs`), at every fuel and call depth (0 = a top-level statement
-    included), with the extra binding `(t, w)` put in front of ANY frame `k` of the chain:
+    Then for every expression `e` (no nested `output`) that does not touch `t` — `touches t e`
+    (Lemmas/EvalWeakClosed.lean): `t` is read as an identifier / shorthand key, assigned, or
+    free in a function `e` creates; a name that `e` does not mention at all is not touched
+    (`not_mentioned_not_touched`), and `t` may be a parameter or local of functions in `e` —
+    and whose free names are bound (or `inputs`), at every fuel and call depth (0 = a top-level
+    statement included), with the extra binding `(t, w)` put in front of ANY frame `k` of the chain:
     same outcome, and the same final state with the same extra binding.  NOTHING is assumed of
     the new value `w` (it may be a non-closed function value) and nothing of how the functions
     reachable from the environment spell their own parameters and locals: they may well use the
@@ -238,17 +247,22 @@ theorem weakening_partial_lists (ops : NumOps) (fuel depth : Nat) (k : Nat) (s :
     by the closedness invariant.  The one everyday case of an unbound free name, the recursive
     definition `f = (n) => … f(n - 1) …`, is covered by `weakening_definition` below. -/
 theorem weakening_closed (ops : NumOps) (fuel depth : Nat) (e : Expr) (k : Nat) (s : ES) (t : String)
-    (w : Value) (ht : t ≠ "inputs") (hk : k < s.env.length) (hm : mentions t e = false)
+    (w : Value) (ht : t ≠ "inputs") (hk : k < s.env.length) (hm : touches t e = false)
     (hw : noOutput e = true) (hE : ClosedE s.names s.env)
     (hfree : ∀ x, FreeIn x e → x = "inputs" ∨ (envGet s.env x).isSome) :
     eval ops fuel depth e (addT t w k s) =
       ((eval ops fuel depth e s).1, addT t w k (eval ops fuel depth e s).2) :=
   ((weak ops w ht fuel).eval depth e s.env.length k s (by omega) ⟨hk, hE⟩ hw hm (fok_of_bound hfree)).1
 
+/-- not mentioned (as identifier, assignment target, parameter, shorthand key — the condition of
+    `weakening_partial`) implies not touched -/
+theorem not_mentioned_not_touched (t : String) (e : Expr) (h : mentions t e = false) : touches t e = false :=
+  touches_of_mentions t e h
+
 /-- the same for a whole `output` statement (`output x = e`, `output e`: the only place the
     grammar puts `output`) -/
 theorem weakening_closed_output (ops : NumOps) (fuel depth : Nat) (e : Expr) (k : Nat) (s : ES) (t : String)
-    (w : Value) (ht : t ≠ "inputs") (hk : k < s.env.length) (hm : mentions t e = false)
+    (w : Value) (ht : t ≠ "inputs") (hk : k < s.env.length) (hm : touches t e = false)
     (hw : noOutput e = true) (hE : ClosedE s.names s.env)
     (hfree : ∀ x, FreeIn x e → x = "inputs" ∨ (envGet s.env x).isSome) :
     eval ops fuel depth (.output e) (addT t w k s) =
@@ -259,10 +273,11 @@ theorem weakening_closed_output (ops : NumOps) (fuel depth : Nat) (e : Expr) (k 
     rw [eval, eval]
     exact weakening_closed ops fuel depth e k s t w ht hk hm hw hE hfree
 
-/-- and the invariant is kept, so the theorem applies statement after statement: the display
-    names only grow, the final environment is closed w.r.t. them, and so is the value -/
+/-- and the invariant is kept (same hypotheses), so the theorem applies statement after
+    statement with the same fresh name: the display names only grow, the final environment is
+    closed w.r.t. them, and so is the value -/
 theorem weakening_closed_keeps_closed (ops : NumOps) (fuel depth : Nat) (e : Expr) (s : ES) (t : String)
-    (ht : t ≠ "inputs") (hne : s.env ≠ []) (hm : mentions t e = false) (hw : noOutput e = true)
+    (ht : t ≠ "inputs") (hne : s.env ≠ []) (hm : touches t e = false) (hw : noOutput e = true)
     (hE : ClosedE s.names s.env)
     (hfree : ∀ x, FreeIn x e → x = "inputs" ∨ (envGet s.env x).isSome) :
     NamesLe s.names (eval ops fuel depth e s).2.names ∧
@@ -275,7 +290,7 @@ theorem weakening_closed_keeps_closed (ops : NumOps) (fuel depth : Nat) (e : Exp
 /-- spelled out for the innermost frame (as `weakening_partial_top`) -/
 theorem weakening_closed_top (ops : NumOps) (fuel depth : Nat) (e : Expr) (s : ES) (f : Frame)
     (r : List Frame) (t : String) (w : Value) (hs : s.env = f :: r) (ht : t ≠ "inputs")
-    (hm : mentions t e = false) (hw : noOutput e = true) (hE : ClosedE s.names s.env)
+    (hm : touches t e = false) (hw : noOutput e = true) (hE : ClosedE s.names s.env)
     (hfree : ∀ x, FreeIn x e → x = "inputs" ∨ (envGet s.env x).isSome) :
     ∃ f', (eval ops fuel depth e s).2.env = f' :: r ∧
       eval ops fuel depth e { s with env := ((t, w) :: f) :: r } =
@@ -294,19 +309,19 @@ theorem weakening_closed_top (ops : NumOps) (fuel depth : Nat) (e : Expr) (s : E
 /-- the same for argument lists, list items, record entries and the statements of a do-block -/
 theorem weakening_closed_lists (ops : NumOps) (fuel depth : Nat) (k : Nat) (s : ES) (t : String) (w : Value)
     (ht : t ≠ "inputs") (hk : k < s.env.length) (hE : ClosedE s.names s.env) :
-    (∀ es, mentionsList t es = false → noOutputList es = true →
+    (∀ es, touchesList t es = false → noOutputList es = true →
       (∀ x, FreeInList x es → x = "inputs" ∨ (envGet s.env x).isSome) →
       evalList ops fuel depth es (addT t w k s) =
         ((evalList ops fuel depth es s).1, addT t w k (evalList ops fuel depth es s).2)) ∧
-    (∀ is, mentionsItems t is = false → noOutputItems is = true →
+    (∀ is, touchesItems t is = false → noOutputItems is = true →
       (∀ x, FreeInItems x is → x = "inputs" ∨ (envGet s.env x).isSome) →
       evalItems ops fuel depth is (addT t w k s) =
         ((evalItems ops fuel depth is s).1, addT t w k (evalItems ops fuel depth is s).2)) ∧
-    (∀ es acc, mentionsEntries t es = false → noOutputEntries es = true → ClosedR s.names acc →
+    (∀ es acc, touchesEntries t es = false → noOutputEntries es = true → ClosedR s.names acc →
       (∀ x, FreeInEntries x es → x = "inputs" ∨ (envGet s.env x).isSome) →
       evalEntries ops fuel depth es acc (addT t w k s) =
         ((evalEntries ops fuel depth es acc s).1, addT t w k (evalEntries ops fuel depth es acc s).2)) ∧
-    (∀ stmts ret, mentionsItems t stmts = false → mentionsItem t ret = false →
+    (∀ stmts ret, touchesItems t stmts = false → touchesItem t ret = false →
       noOutputItems stmts = true → noOutputItem ret = true →
       (∀ x, FreeInDo x stmts ret → x = "inputs" ∨ (envGet s.env x).isSome) →
       evalDo ops fuel depth stmts ret (addT t w k s) =
@@ -336,14 +351,92 @@ theorem free_names_checkable (e : Expr) (P : String → Prop) (hw : noOutput e =
 
 /-- DEFINITIONS `f = (ps) => body` (recursive ones included: `f` itself may be free in `body`
     and unbound): creating a function evaluates nothing, so no condition on the environment or
-    on the free names is needed, only that `t` is not mentioned -/
+    on the free names is needed, only that `t` is not the defined name and not free in the
+    function -/
 theorem weakening_definition (ops : NumOps) (fuel depth : Nat) (nm : String) (ps : List LArg) (body : Expr)
     (k : Nat) (s : ES) (t : String) (w : Value) (hk : k < s.env.length)
-    (hm : mentions t (.assign nm (.lambda ps body)) = false) :
+    (hm : touches t (.assign nm (.lambda ps body)) = false) :
     eval ops fuel depth (.assign nm (.lambda ps body)) (addT t w k s) =
       ((eval ops fuel depth (.assign nm (.lambda ps body)) s).1,
        addT t w k (eval ops fuel depth (.assign nm (.lambda ps body)) s).2) :=
   weak_definition ops w fuel depth nm ps body k s hk hm
+
+/-! #### (5) evaluating an expression twice -/
+
+/-- whatever `e` computes (calls included), if it makes no assignment to the current frame
+    (`assignFree`: `.assign` only inside function bodies or do-blocks, whose frames are dropped)
+    the second evaluation starts in exactly the environment the first one started in -/
+theorem eval_twice_same_environment (ops : NumOps) (fuel depth : Nat) (e : Expr) (s : ES)
+    (ha : assignFree e = true) : (eval ops fuel depth e s).2.env = s.env :=
+  eval_env_same ops fuel depth e s ha
+
+/-- EVALUATING TWICE.  In a well-formed state (`StateOk`, C03: every function cell in use and
+    every named cell is below the cell counter — kept by evaluation, true initially), an
+    expression without frame-level assignment whose evaluation allocates no function cell
+    (`nextId` unchanged; in particular its value contains no newly created function) returns
+    the state EXACTLY as it was, so evaluating it again is the same evaluation: same outcome,
+    same state.  Any outcome, any fuel and call depth, calls of any kind included.
+
+    NOT PROVED (too large for the time available): the general case where cells are allocated.
+    Then the second evaluation draws different cell ids, so the two values are equal only up to
+    the renaming `id ↦ id + (s1.nextId - s.nextId)` of the new cells; proving that needs a
+    simulation "evaluation commutes with a monotone renaming of cell ids" through all fifteen
+    functions of the evaluator and each of the ~80 built-ins in `callPure` (`veq` / `vcmp` /
+    sorting / `unique` on values that contain function cells).  The two hypotheses below are
+    needed for the literal statement, see the examples. -/
+theorem eval_twice (ops : NumOps) (fuel depth : Nat) (e : Expr) (s : ES) (hs : StateOk s)
+    (ha : assignFree e = true) (hid : (eval ops fuel depth e s).2.nextId = s.nextId) :
+    (eval ops fuel depth e s).2 = s ∧
+      eval ops fuel depth e (eval ops fuel depth e s).2 = eval ops fuel depth e s := by
+  have h := eval_state_same ops fuel depth e s hs ha hid
+  exact ⟨h, by rw [h]⟩
+
+/-- in the form of the property text: first evaluation `(r, s1)`, no cell allocated; second
+    evaluation from `s1`: `(r, s1)` again -/
+theorem eval_twice_outcome (ops : NumOps) (fuel depth : Nat) (e : Expr) (s s1 : ES) (r : Outcome Value)
+    (hs : StateOk s) (ha : assignFree e = true) (h : eval ops fuel depth e s = (r, s1))
+    (hid : s1.nextId = s.nextId) : eval ops fuel depth e s1 = (r, s1) := by
+  have h2 := eval_twice ops fuel depth e s hs ha (by rw [h]; exact hid)
+  rw [h] at h2
+  exact h2.2
+
+/-! #### (6) let-abstraction -/
+
+/-- LET-ABSTRACTION OF THE SUBEXPRESSION THAT IS EVALUATED FIRST.  `c : LCtx`
+    (Lemmas/EvalWeakClosed.lean) is an expression with a hole that is evaluated first, exactly
+    once and unconditionally: `□`, `op □`, `□!`, `□.f`, `□ op r`, `□[i]`, `if □ then a else b`,
+    `x = □`, `□(args…)`, `fn(□, rest…)` with `fn` a built-in / identifier / literal
+    (`simpleHeads`), `[□, rest…]`, nested in any way.  `c.plug e` fills the hole.
+
+    In an environment of closed values, if the subexpression `e'` evaluates to `v` and leaves the
+    state as it was (no assignment, no function cell: see `eval_twice`), and `t` is a fresh name
+    (`C[e']` does not touch it, it is not `inputs` / `inf` / `infinity` / `constants`), then
+    `C[t]` evaluated with `t ↦ v` bound in the innermost frame gives the same outcome as
+    `C[e']`, and the same final state plus that binding.  `c.depth` is the fuel the context
+    uses above the hole.
+
+    Relation to the program `t = e'; C[t]`: the statement `t = e'` binds `t ↦ v` in the innermost
+    frame and gives no display name (`e'` allocated no cell); the model keeps a frame as an
+    association list and the statement puts the new pair at its end where `addT` puts it at the
+    head — the real frame is a hash map, and no lookup depends on the position
+    (`frame_lookup_perm`), but the two model states are not literally equal, which is why the
+    theorem is stated with `addT`.
+
+    NOT PROVED: holes in other positions (evaluated later, conditionally, or repeatedly).  There
+    the subexpression is evaluated in a state that the rest of `C` has already changed, so one
+    needs "the value of `e'` is stable under growth of the state", which is the simulation
+    described at `eval_twice`. -/
+theorem let_abstraction_leftmost (ops : NumOps) (fuel0 depth : Nat) (c : LCtx) (e' : Expr) (s : ES) (t : String)
+    (v : Value) (ht : t ≠ "inputs") (hsp : t ∉ Gen.specialIdents) (hne : s.env ≠ [])
+    (hE : ClosedE s.names s.env) (hc : c.simpleHeads = true) (hw : noOutput (c.plug e') = true)
+    (hm : touches t (c.plug e') = false)
+    (hfree : ∀ x, FreeIn x (c.plug e') → x = "inputs" ∨ (envGet s.env x).isSome)
+    (h0 : eval ops fuel0 depth e' s = (.ok v, s)) :
+    eval ops (fuel0 + c.depth) depth (c.plug (.ident t)) (addT t v 0 s) =
+      ((eval ops (fuel0 + c.depth) depth (c.plug e') s).1,
+       addT t v 0 (eval ops (fuel0 + c.depth) depth (c.plug e') s).2) :=
+  have hk : 0 < s.env.length := List.length_pos_iff.mpr hne
+  (let_abstraction_ctx ops ht hsp hk ⟨hk, hE⟩ h0 c hc hw hm (fok_of_bound hfree)).1
 
 /-- the names a function captures are among the names its body mentions, so an unmentioned
     name is never captured (used in the function-creation case) -/
@@ -378,48 +471,48 @@ example : "z" ≠ "inputs" ∧ 0 < root0.env.length ∧
 
 /-! ##### examples for (4b) -/
 
-/-- the environment of the example: `g = (t) => [t, y]` which captured `y ↦ 1` (C04's closed
-    example function; NOTE its parameter is called `t`), and `a ↦ "arg"` -/
-def exS : ES := { env := [[("g", C04Ex.exG), ("a", .str "arg")]], nextId := 3, names := [] }
-
-/-- `[g(a), map([a], (x) => g(x))]`: calls a captured closure, and the higher-order built-in
-    `map` with a lambda callback that calls the closure again -/
-def exE : Expr :=
-  .list [it (.call (.ident "g") [.ident "a"]),
-         it (.call (.builtin "map") [.list [it (.ident "a")],
-               .lambda [.req "x"] (.call (.ident "g") [.ident "x"])])]
+/- `C02Ex.exS` (Lemmas/EvalWeakClosed.lean): the environment `g = (t) => [t, y]` which captured
+   `y ↦ 1` (C04's closed example function; NOTE its parameter is called `t`), and `a ↦ "arg"`.
+   `C02Ex.exE`: `[g(a), map([a], (x) => g(x))]` — calls a captured closure, and the higher-order
+   built-in `map` with a lambda callback that calls the closure again. -/
 
 /-- hypotheses of `weakening_closed` for the fresh name `t` (the callee's own parameter name) -/
-example : "t" ≠ "inputs" ∧ 0 < exS.env.length ∧ mentions "t" exE = false ∧ noOutput exE = true ∧
-    ClosedE exS.names exS.env ∧ (∀ x, FreeIn x exE → x = "inputs" ∨ (envGet exS.env x).isSome) := by
-  refine ⟨by decide, by decide, by decide, by decide, ?_, free_names_checkable exE _ (by decide) (by decide)⟩
+example : "t" ≠ "inputs" ∧ 0 < C02Ex.exS.env.length ∧ touches "t" C02Ex.exE = false ∧
+    noOutput C02Ex.exE = true ∧ ClosedE C02Ex.exS.names C02Ex.exS.env ∧
+    (∀ x, FreeIn x C02Ex.exE → x = "inputs" ∨ (envGet C02Ex.exS.env x).isSome) := by
+  refine ⟨by decide, by decide, by decide, by decide, ?_,
+    free_names_checkable C02Ex.exE _ (by decide) (by decide)⟩
   intro f hf
-  simp only [exS, List.mem_singleton] at hf
+  simp only [C02Ex.exS, List.mem_singleton] at hf
   subst hf
-  simp [ClosedR, exS, C04Ex.exG_closed]
+  simp [ClosedR, C02Ex.exS, C04Ex.exG_closed]
 
 /-- and the conclusion, computed on both sides: with `t ↦ false` added to the frame the result
     is still `[["arg", 1], [["arg", 1]]]` — inside `g` the name `t` is the parameter -/
 example :
-    (eval toyOps 20 0 exE exS).1 =
+    (eval toyOps 20 0 C02Ex.exE C02Ex.exS).1 =
       .ok (.list [.list [.str "arg", .num F64.one], .list [.list [.str "arg", .num F64.one]]]) ∧
-    (eval toyOps 20 0 exE (addT "t" (.bool false) 0 exS)).1 =
+    (eval toyOps 20 0 C02Ex.exE (addT "t" (.bool false) 0 C02Ex.exS)).1 =
       .ok (.list [.list [.str "arg", .num F64.one], .list [.list [.str "arg", .num F64.one]]]) := by
+  set_option linter.unusedSimpArgs false in
   constructor <;>
-  simp +decide [exE, exS, addT, addAt, C04Ex.exG, callFn, callHof, mapCalls, eval, evalItems, evalList, it,
+  simp +decide [C02Ex.exE, C02Ex.exS, addT, addAt, C04Ex.exG, callFn, callHof, mapCalls, eval, evalItems,
+    evalList, it,
     checkArity, lambdaArity, Gen.Arity.canAccept, MAX_DEPTH, nameOf, bindParams, bindParams.go, envGet,
     lookupAL, insertAL, flattenSpreads, Value.isCallable, C04Ex.map_arity, isHof, arityOf, freeVars,
     freeVarsList, captureScope, LArg.name]
 
 /-- the theorem applied to it (all hypotheses discharged) -/
-example : eval toyOps 20 0 exE (addT "t" (.bool false) 0 exS) =
-    ((eval toyOps 20 0 exE exS).1, addT "t" (.bool false) 0 (eval toyOps 20 0 exE exS).2) :=
-  weakening_closed toyOps 20 0 exE 0 exS "t" (.bool false) (by decide) (by decide) (by decide) (by decide)
+example : eval toyOps 20 0 C02Ex.exE (addT "t" (.bool false) 0 C02Ex.exS) =
+    ((eval toyOps 20 0 C02Ex.exE C02Ex.exS).1,
+     addT "t" (.bool false) 0 (eval toyOps 20 0 C02Ex.exE C02Ex.exS).2) :=
+  weakening_closed toyOps 20 0 C02Ex.exE 0 C02Ex.exS "t" (.bool false) (by decide) (by decide) (by decide)
+    (by decide)
     (by intro f hf
-        simp only [exS, List.mem_singleton] at hf
+        simp only [C02Ex.exS, List.mem_singleton] at hf
         subst hf
-        simp [ClosedR, exS, C04Ex.exG_closed])
-    (free_names_checkable exE _ (by decide) (by decide))
+        simp [ClosedR, C02Ex.exS, C04Ex.exG_closed])
+    (free_names_checkable C02Ex.exE _ (by decide) (by decide))
 
 /-- "free names bound" is needed for the closedness invariant: `(x) => y` created where `y` is
     unbound is not a closed value -/
@@ -427,11 +520,79 @@ example : ¬ ClosedV [] (.lambda 1 [.req "x"] (.ident "y") []) := by
   rw [closedV_lambda]
   intro h
   have := h.1 "y" (.ident (by decide))
-  simp +decide [lookupAL, nameOf] at this
+  simp +decide at this
 
 /-- hypotheses of `weakening_definition`: `f = (n) => f(n)`, fresh name `z` -/
-example : mentions "z" (.assign "f" (.lambda [.req "n"] (.call (.ident "f") [.ident "n"]))) = false ∧
+example : touches "z" (.assign "f" (.lambda [.req "n"] (.call (.ident "f") [.ident "n"]))) = false ∧
     0 < root0.env.length := by decide
+
+/-- `touches` is weaker than `mentions`: `map([a], (t) => g(t))` mentions `t` (a parameter) but
+    does not touch it, so `weakening_closed` applies to the fresh name `t` -/
+example : mentions "t" (.call (.builtin "map") [.list [it (.ident "a")],
+      .lambda [.req "t"] (.call (.ident "g") [.ident "t"])]) = true ∧
+    touches "t" (.call (.builtin "map") [.list [it (.ident "a")],
+      .lambda [.req "t"] (.call (.ident "g") [.ident "t"])]) = false := by decide
+
+/-! ##### examples for (5) -/
+
+/-- hypotheses of `eval_twice`: `g(a)` in the state of the example above allocates no cell -/
+example : StateOk C02Ex.exS ∧ assignFree (.call (.ident "g") [.ident "a"]) = true ∧
+    (eval toyOps 20 0 (.call (.ident "g") [.ident "a"]) C02Ex.exS).2.nextId = C02Ex.exS.nextId := by
+  refine ⟨⟨by decide, by intro p hp; simp [C02Ex.exS] at hp⟩, by decide, ?_⟩
+  simp +decide [C02Ex.exS, C04Ex.exG, callFn, eval, evalItems, evalList, it, checkArity, nameOf, bindParams,
+    bindParams.go, envGet, lookupAL, insertAL, flattenSpreads]
+
+/-- "no assignment" is needed: `x = 1` succeeds the first time and fails the second time -/
+example : (eval toyOps 5 0 (.assign "x" (.num F64.one)) root0).1 = .ok (.num F64.one) ∧
+    (eval toyOps 5 0 (.assign "x" (.num F64.one)) (eval toyOps 5 0 (.assign "x" (.num F64.one)) root0).2).1 =
+      .err .alreadyDefined := by
+  set_option linter.unusedSimpArgs false in
+  constructor <;>
+  simp +decide [eval, root0, alreadyDefined, envContains, envGet, lookupAL, insertAL, envInsert,
+    setNameIfLambda, createdSince, isBuiltinIdent, Gen.assignKeywords]
+
+/-- "allocates no cell" is needed for literal equality: `(a) => a` evaluated twice gives two
+    function values that differ in their cell id -/
+example : (eval toyOps 5 0 (.lambda [.req "a"] (.ident "a")) root0).1 =
+      .ok (.lambda 1 [.req "a"] (.ident "a") []) ∧
+    (eval toyOps 5 0 (.lambda [.req "a"] (.ident "a"))
+      (eval toyOps 5 0 (.lambda [.req "a"] (.ident "a")) root0).2).1 =
+      .ok (.lambda 2 [.req "a"] (.ident "a") []) := by
+  constructor <;> simp +decide [eval, root0, freeVars, captureScope]
+
+/-! ##### example for (6) -/
+
+/-- `map(□, (x) => g(x))` with `□ := [a]`, abstracted as `t`: hypotheses of
+    `let_abstraction_leftmost` in the example state (`g` is the closed function above) -/
+example :
+    let c : LCtx := .callArg (.builtin "map") .hole [.lambda [.req "x"] (.call (.ident "g") [.ident "x"])]
+    let e' : Expr := .list [it (.ident "a")]
+    c.plug e' = .call (.builtin "map") [.list [it (.ident "a")],
+        .lambda [.req "x"] (.call (.ident "g") [.ident "x"])] ∧
+      c.plug (.ident "t") = .call (.builtin "map") [.ident "t",
+        .lambda [.req "x"] (.call (.ident "g") [.ident "x"])] ∧
+      c.depth = 2 ∧ c.simpleHeads = true ∧ "t" ∉ Gen.specialIdents ∧
+      noOutput (c.plug e') = true ∧ touches "t" (c.plug e') = false ∧
+      (∀ x, FreeIn x (c.plug e') → x = "inputs" ∨ (envGet C02Ex.exS.env x).isSome) ∧
+      eval toyOps 5 0 e' C02Ex.exS = (.ok (.list [.str "arg"]), C02Ex.exS) := by
+  refine ⟨rfl, rfl, rfl, by decide, by decide, by decide, by decide,
+    free_names_checkable _ _ (by decide) (by decide), ?_⟩
+  simp +decide [C02Ex.exS, eval, evalItems, it, envGet, lookupAL, flattenSpreads]
+
+/-- and both sides computed: `[["arg", 1]]` -/
+example :
+    (eval toyOps 20 0 (.call (.builtin "map") [.list [it (.ident "a")],
+        .lambda [.req "x"] (.call (.ident "g") [.ident "x"])]) C02Ex.exS).1 =
+      .ok (.list [.list [.str "arg", .num F64.one]]) ∧
+    (eval toyOps 20 0 (.call (.builtin "map") [.ident "t",
+        .lambda [.req "x"] (.call (.ident "g") [.ident "x"])])
+      (addT "t" (.list [.str "arg"]) 0 C02Ex.exS)).1 = .ok (.list [.list [.str "arg", .num F64.one]]) := by
+  set_option linter.unusedSimpArgs false in
+  constructor <;>
+  simp +decide [C02Ex.exS, addT, addAt, C04Ex.exG, callFn, callHof, mapCalls, eval, evalItems, evalList, it,
+    checkArity, lambdaArity, Gen.Arity.canAccept, MAX_DEPTH, nameOf, bindParams, bindParams.go, envGet,
+    lookupAL, insertAL, flattenSpreads, Value.isCallable, C04Ex.map_arity, isHof, arityOf, freeVars,
+    freeVarsList, captureScope, LArg.name]
 
 /-- the condition "not mentioned" matters: binding the name `x` that `e` reads changes the outcome -/
 example : (eval toyOps 2 0 (.ident "x") root0).1 = .err .unknownIdent ∧
